@@ -53,7 +53,7 @@ def one_property(pid):
 
 def main():
     ids = [a for a in sys.argv[1:] if not a.startswith("--")] or sorted(set(x.split("-")[0] for x in os.listdir("/verif/seeded") if "-" in x))
-    with cf.ThreadPoolExecutor(3) as ex:
+    with cf.ThreadPoolExecutor(int(os.environ.get("SWEEP_WORKERS", "3"))) as ex:
         for res in ex.map(one_property, ids):
             for r in res:
                 print(*r, flush=True)
